@@ -28,6 +28,10 @@ func decodeFormat6(data []byte, code2rune func(c int) rune) (Subtable, error) {
 	}
 	firstCode := int(data[6])<<8 | int(data[7])
 	count := int(data[8])<<8 | int(data[9])
+	if firstCode+count > 0x10000 {
+		// character codes have 16 bits
+		return nil, errMalformedSubtable
+	}
 
 	// some fonts have an excess 0x0000 at the end of the table
 	if len(data) == 10+2*count+2 && data[10+2*count] == 0 && data[10+2*count+1] == 0 {
